@@ -16,7 +16,7 @@ from .. import gen, runner
 from .common import CapSim, guarded, Summary, all_individuals
 
 INF = float('inf')
-BUDGET = {'quick': 240, 'thorough': 6000}
+BUDGET = {'quick': 360, 'thorough': 8000}
 FIELDS = ('arrival_date', 'waiting_time', 'service_start_date', 'service_time', 'service_end_date', 'time_blocked', 'exit_date')
 
 
@@ -133,6 +133,8 @@ def worker(job, extra):
         if res['viol']: res['spec'] = spec
         res['sample'] = {'kind': 'grid', 'seed': seed, 'mode': spec['mode'], 'k': spec['k'], 'servers': spec['servers'], 'records': len(recs)}
         return res
+    if job['kind'] == 'precision':
+        return precision_job(job, res)
     # float vs exact on tie-free workloads (ordinary nodes only)
     prof = {'p_lattice': 0.0, 'p_ps': 0.0, 'p_exact': 0.0, 'p_kinds': (0.7, 0.1, 0.2, 0.0), 'horizons': [10.0, 20.0], 'p_batch': 0.2,
             'p_renege': 0.3, 'p_prio': 0.4, 'p_cct': 0.1, 'p_ccm': 0.2}
@@ -193,6 +195,55 @@ def worker(job, extra):
     return res
 
 
+def precision_job(job, res):
+    """The precision asked for is the precision used, whatever ran before in the process and whichever run method is used:
+    after a low-precision exact simulation, a high-precision one must still produce exact decimal sums of samples that need
+    more digits than the earlier precision."""
+    seed = job['seed']
+    r = random.Random(seed)
+    k = r.choice([20, 26, 30])
+    step = Decimal(r.choice(['1234.0000001', '987.00000003', '4321.000000007']))
+    svc = Decimal(r.choice(['0.0000001', '0.25', '1.00000000001']))
+    method = job.get('method') or r.choice(['time', 'customers', 'deadlock'])
+    res['sig'] = repr(('precision', k, str(step), method))
+    D = ciw.dists.Deterministic
+
+    def go():
+        # pilot with a low precision (leaves the process-wide decimal context at 10 digits)
+        N0 = ciw.create_network(arrival_distributions=[D(1.0)], service_distributions=[D(0.5)], number_of_servers=[1])
+        ciw.seed(seed); Q0 = CapSim(N0, exact=10); Q0.simulate_until_max_time(5)
+        if method == 'deadlock':
+            N = ciw.create_network(arrival_distributions=[D(float(step))], service_distributions=[D(float(svc))], number_of_servers=[1],
+                                   queue_capacities=[0], routing=[[1.0]])
+            ciw.seed(seed); Q = CapSim(N, exact=k, deadlock_detector=ciw.deadlock.StateDigraph()); Q._cap = 5000
+            Q.simulate_until_deadlock()
+        else:
+            N = ciw.create_network(arrival_distributions=[D(float(step))], service_distributions=[D(float(svc))], number_of_servers=[2])
+            ciw.seed(seed); Q = CapSim(N, exact=k); Q._cap = 5000
+            if method == 'time': Q.simulate_until_max_time(float(step) * 12.5)
+            else: Q.simulate_until_max_customers(12, method='Arrive')
+        return Q
+    Q, st, cr = guarded(go, 60)
+    res['status'] = st
+    if st == 'crash': res['viol'].append(('crash_in_exact_mode', repr(cr)))
+    if st != 'ok': return res
+    inds = sorted(all_individuals(Q), key=lambda i: i.id_number)
+    res['nrec'] = len(inds)
+    stepd = Decimal(str(float(step)))   # the engine converts samples with Decimal(str(sample))
+    svcd = Decimal(str(float(svc)))
+    for n_, i in enumerate(inds, 1):
+        arr = i.data_records[0].arrival_date if i.data_records else i.arrival_date
+        exp = Fraction(stepd) * n_
+        res['ref_compared'] += 1
+        if not isinstance(arr, Decimal) or Fraction(arr) != exp:
+            res['viol'].append(('date_not_exact_sum_at_requested_precision', (method, k, n_, str(arr), str(stepd * n_)))); break
+        for rec in i.data_records:
+            if rec.record_type == 'service' and Fraction(rec.service_end_date) != Fraction(rec.service_start_date) + Fraction(svcd):
+                res['viol'].append(('service_end_not_exact_sum_at_requested_precision', (method, k, str(rec.service_start_date), str(rec.service_end_date)))); break
+    res['sample'] = {'kind': 'precision', 'seed': seed, 'k': k, 'inter_arrival': str(step), 'method': method, 'customers': len(inds)}
+    return res
+
+
 def main(tier, vseed, replay=None):
     S = Summary('C20', tier, vseed)
     if replay:
@@ -201,7 +252,8 @@ def main(tier, vseed, replay=None):
     else:
         n = BUDGET[tier]
         jobs = [{'seed': vseed * 1000003 + k, 'kind': 'grid'} for k in range(n * 2 // 3)] + \
-               [{'seed': vseed * 1000003 + 500000 + k, 'kind': 'float'} for k in range(n // 3)]
+               [{'seed': vseed * 1000003 + 500000 + k, 'kind': 'float'} for k in range(n // 3)] + \
+               [{'seed': vseed * 1000003 + 800000 + k, 'kind': 'precision', 'method': ['time', 'customers', 'deadlock'][k % 3]} for k in range(max(6, n // 20))]
     results, failures = runner.run_shards('ciwmon.special.c20', jobs, {}, 900 if tier == 'quick' else 4 * 3600)
     for r in results:
         if 'harness_error' in r:
